@@ -571,9 +571,11 @@ func (em *emitter) emitAssignmentNode(node *ast.Assignment) {
 		case *ast.Index:
 			exprType := em.typ(v.Expr)
 			var expr int8
+			var throughPointer bool
 			if ptr, ok := em.pointerOfArray(v.Expr); ok {
 				// (*p)[i] = v and p[i] = v assign to the array pointed by p.
 				expr = operand(ptr, em.typ(ptr))
+				throughPointer = true
 			} else if exprType.Kind() == reflect.Array {
 				expr = em.emitExpr(v.Expr, exprType)
 			} else {
@@ -592,7 +594,7 @@ func (em *emitter) emitAssignmentNode(node *ast.Assignment) {
 					addresses[i] = em.addressLocalMapIndex(expr, index, exprType, pos, node.Type)
 				}
 			case reflect.Slice, reflect.Array:
-				if nonLocalSlice, ok := em.varStore.nonLocalVarIndex(v.Expr); ok {
+				if nonLocalSlice, ok := em.varStore.nonLocalVarIndex(v.Expr); ok && !throughPointer {
 					addresses[i] = em.addressGlobalSliceIndex(nonLocalSlice, expr, index, exprType, pos, node.Type)
 				} else {
 					addresses[i] = em.addressSliceIndex(expr, index, exprType, pos, node.Type)
@@ -606,6 +608,8 @@ func (em *emitter) emitAssignmentNode(node *ast.Assignment) {
 			expr := v.Expr
 			if op, ok := expr.(*ast.UnaryOperator); ok && op.Op == ast.OperatorPointer && em.isStructIndirection(expr) {
 				expr = op.Expr
+			} else if ptr, ok := em.addressOfNonLocal(expr); ok {
+				expr = ptr
 			}
 			typ := em.typ(expr)
 			var reg int8
